@@ -1,6 +1,6 @@
 SPECIFICATION GSpec
 CONSTANTS
   MaxLen = 4
-  Templates = {"S1", "S2", "S3", "S4", "S5", "S8", "S9", "S10"}
+  Templates = {"S1", "S2", "S3", "S4", "S5", "S6", "S7", "S8", "S9", "S10", "S11", "S13", "S14"}
 INVARIANT Emit
 CHECK_DEADLOCK FALSE
